@@ -321,6 +321,37 @@ def rootOfUnity (n : Nat) : Option Nat :=
   if n = 0 ∨ n > F.twoAdicity then none
   else some (F.exp (F.new F.twoAdicRoot) (2 ^ (F.twoAdicity - n)))
 
+/-- public operations applied in sequence to an accumulator `acc` and a second operand `y`
+    (the representation invariant must hold in every state reachable this way) -/
+inductive SeqOp where
+  | add | sub | mul | neg | dbl | sq | swap | inv | div
+  | mulSmall (k : Nat)        -- 64-bit field only: `mul_small(k)`, k < 2^32
+  deriving Repr, DecidableEq
+
+/-- one step; `none` = the implementation does not return (fuel exhausted in an inversion) -/
+def seqStep (mulSmall : Nat → Nat → Nat) (st : Option (Nat × Nat)) (op : SeqOp) : Option (Nat × Nat) :=
+  match st with
+  | none => none
+  | some (acc, y) =>
+    match op with
+    | .add => some (F.add acc y, y)
+    | .sub => some (F.sub acc y, y)
+    | .mul => some (F.mul acc y, y)
+    | .neg => some (F.neg acc, y)
+    | .dbl => some (F.double acc, y)
+    | .sq => some (F.mul acc acc, y)
+    | .swap => some (y, acc)
+    | .mulSmall k => some (mulSmall acc k, y)
+    | .inv => match F.inv acc with
+      | .done r => some (r, y)
+      | .out => none
+    | .div => match F.div acc y with
+      | .done r => some (r, y)
+      | .out => none
+
+def runSeq (mulSmall : Nat → Nat → Nat) (a b : Nat) (ops : List SeqOp) : Option (Nat × Nat) :=
+  ops.foldl (F.seqStep mulSmall) (some (F.new a, F.new b))
+
 end FieldImpl
 
 end Model
